@@ -87,6 +87,8 @@ def check_logs(scratch):
     per = {}
     for p in sorted(glob.glob(os.path.join(scratch, "*.json.log"))):
         for line in open(p):
+            if not line.endswith("\n"):
+                continue  # torn last line of a worker that died
             f = line.split()
             if not f:
                 continue
